@@ -117,10 +117,10 @@ fn judge_err(files: &[(String, Vec<u8>)], l: &ArcLayout, ec: &ErrCase, t: &mut T
 
 fn scale_sets() -> Vec<(String, Vec<(String, Vec<u8>)>)> {
     let mut v = Vec::new();
-    for n in [255usize, 256, 257, 1000] {
+    for n in util::ladder(4097) {
         v.push((format!("{} files", n), (0..n).map(|i| (format!("file{:04}.bin", i), body(i % 5, i % 7))).collect()));
     }
-    for n in [65_535usize, 65_536, 70_001] {
+    for n in util::ladder(70_001).into_iter().chain([70_001]) {
         v.push((format!("bodies of {} bytes", n), vec![("a.bin".to_string(), body(0, n)), ("日本.bin".to_string(), body(1, 2)), ("c.bin".to_string(), body(2, n + 3))]));
     }
     v
